@@ -188,6 +188,20 @@ def c17(res, tier, seed):
                 if v != off: corr.append((base, 8, v))
         if tier == "quick":
             corr = corr[:12] + r.sample(corr[12:], min(60, len(corr) - 12))
+        # value sweeps of table fields: every 8-aligned displacement of a size / an offset that stays inside the file (a loader that
+        # compares neighbouring entries pairwise instead of against the running sum accepts a few of them); all fields of every
+        # image in the thorough tier, byte-exact for the smallest image; first two and last entries of the smallest image otherwise
+        smallest = min(images, key=lambda k: len(images[k]))
+        if tier != "quick" or name == smallest:
+            ents = range(f["nb"]) if tier != "quick" else sorted({0, 1, f["nb"] - 1})
+            for i in ents:
+                base = 6 + 12 * i
+                off, sz = struct.unpack_from("<QI", img, base)
+                step = 1 if (tier != "quick" and name == smallest) else 8
+                for v in range(sz % step, L + 16, step):
+                    if v != sz: corr.append((base + 8, 4, v))
+                for v in range(off % step, L + 16, step):
+                    if v != off: corr.append((base, 8, v))
         for off, width, val in corr:
             lines.append("corrupt %s %d %d %d 0" % (path, off, width, val)); plan.append((name, "corrupt", off, (width, val), f))
     lines.append("finalize")
@@ -211,6 +225,33 @@ def c17(res, tier, seed):
             owners.append((name, "corrupt off=%d width=%d val=%d" % (a, b[0], b[1]), a, ret, scanret))
             res.count(1, (name, kind, a, b))
     judge_and_report(res, "C17", records, owners, lambda o: {"file": o[0], "case": o[1], "prefix_or_offset": o[2], "load_ret": o[3], "scan_after_load": o[4]}, wd, "c17")
+    # the command-line tools given a damaged compiled file (yara -C): a diagnostic and exit status 1, never a signal, never a scan
+    import subprocess
+    yara = os.path.join(yv.build("asan"), "yara")
+    target = os.path.join(wd, "cli_target.bin"); open(target, "wb").write(b"some data to scan MK1;")
+    ncli = 0
+    for name, img in sorted(images.items())[: (2 if tier == "quick" else 7)]:
+        L = len(img); f = parse_image(img)
+        cuts = sorted({0, 1, 5, 6, 7, 6 + 12 * f["nb"], 6 + 12 * f["nb"] + 1, L // 2, L - 9, L - 8, L - 1} | ({r.randrange(L) for _ in range(6)} if tier == "quick" else set(range(0, L, max(1, L // 60)))))
+        variants = [("prefix %d" % n, img[:n]) for n in cuts if 0 <= n < L]
+        variants += [("magic", b"XARA" + img[4:]), ("version+1", img[:4] + bytes([img[4] + 1]) + img[5:]), ("source text", b"rule a { condition: true }\n"),
+                     ("section 0 size +8", img[:14] + struct.pack("<I", struct.unpack_from("<I", img, 14)[0] + 8) + img[18:])]
+        for what, data in variants:
+            pth = os.path.join(wd, "cli_damaged.yarc"); open(pth, "wb").write(data)
+            e = dict(os.environ); e.update(yv.SAN_ENV)
+            try:
+                pr = subprocess.run([yara, "-C", pth, target], capture_output=True, timeout=60, env=e)
+                rc, err, outp = pr.returncode, pr.stderr.decode("latin-1"), pr.stdout.decode("latin-1")
+            except subprocess.TimeoutExpired:
+                rc, err, outp = -9, "timeout", ""
+            ncli += 1
+            res.count(1, ("cli", name, what))
+            if rc != 1 or not err.strip() or "Sanitizer" in err or outp.strip():
+                res.violation("yara -C on a damaged compiled file (%s, %s): exit status %s, stdout %r, stderr %s" % (name, what, rc, outp[:80], err[-200:].replace("\n", " | ")),
+                              yv.save_replay("C17", "cli_%s_%s" % (name, what.replace(" ", "_")), {"file_hex": data[:4096].hex(), "exit": rc, "stderr": err[-3000:]}))
+            else:
+                res.cov["traces_validated_against_impl"] += 1
+    res.cov["parts"]["cli_runs_on_damaged_files"] = ncli
     res.sample({"file": "text.yarc", "abstract": parse_image(images["text"]), "len": len(images["text"])})
     res.level = "fault_enumeration"
     res.cov["exhaustive"] = tier != "quick"
